@@ -4,8 +4,10 @@ import (
 	"fmt"
 	"os"
 	"path/filepath"
+	"runtime"
 	"strings"
 	"sync"
+	"time"
 
 	"go.opentelemetry.io/collector/pdata/plog"
 	"go.opentelemetry.io/collector/pdata/pmetric"
@@ -182,6 +184,15 @@ func (r *run) runIndependence(e *Engine) {
 		}
 		hp.nBatches = 1 + t.Weighted(core.Gen, 3, 3, 2, 2, 1)
 		hp.ramp = []string{"", "small"}[t.Weighted(core.Gen, 4, 1)]
+		if t.Chance(core.Cfg, 1, 3) {
+			// a structurally poor stream (one attribute value type, no
+			// resource / scope attributes): streams then differ in the
+			// columns and records they have, and state shared between
+			// instances - a cache keyed by a schema, a reused buffer -
+			// shows as wrong telemetry rather than as the same telemetry
+			hp.narrow = 1 + t.Draw(core.Cfg, 4)
+			hp.nBatches += 2
+		}
 		for i := 0; i < hp.nBatches; i++ {
 			b := r.genBatch(hp, i)
 			pp.batches = append(pp.batches, b)
@@ -222,50 +233,15 @@ func (r *run) runIndependence(e *Engine) {
 			}
 		}
 	} else {
-		// (a) tape-driven interleaving of API calls
-		created := make([]bool, nPairs)
-		for {
-			type op struct {
-				k    int
-				kind string
-			}
-			var ops []op
-			for k, ps := range states {
-				switch {
-				case !created[k]:
-					ops = append(ops, op{k, "create"})
-				case ps.closed:
-				default:
-					if len(ps.encoded) < len(ps.plan.batches) {
-						ops = append(ops, op{k, "encode"})
-					}
-					if ps.nDecoded < len(ps.encoded) {
-						ops = append(ops, op{k, "decode"})
-					}
-					if len(ps.encoded) == len(ps.plan.batches) && ps.nDecoded == len(ps.encoded) {
-						ops = append(ops, op{k, "close"})
-					}
-				}
-			}
-			if len(ops) == 0 {
-				break
-			}
-			o := ops[t.Draw(core.Sched, len(ops))]
-			r.batch++
-			r.logf("step %d: pair %d %s", r.batch, o.k, o.kind)
-			r.sig.Int(int64(o.k)).Str(o.kind)
-			ps := states[o.k]
-			switch o.kind {
-			case "create":
-				ps.create()
-				created[o.k] = true
-			case "encode":
-				ps.encodeNext()
-			case "decode":
-				ps.decodeNext()
-			case "close":
-				ps.close()
-			}
+		// (a) tape-driven interleaving. Every stream runs on a goroutine of
+		// its own; exactly one goroutine runs at a time and the tape decides
+		// which. A goroutine is parked between API calls (create / encode /
+		// decode / close) and - inside a call - at every yield point that the
+		// driver inserts before statements that touch shared state through
+		// sync or sync/atomic (overlay copies; the unchanged tree has no such
+		// statement, so there the interleaving is at API-call granularity).
+		if !r.coopInterleave(states) {
+			return
 		}
 	}
 	for k := range states {
@@ -304,6 +280,153 @@ func (r *run) runIndependence(e *Engine) {
 		}
 		r.out.Scenario = map[string]any{"property": "C16", "pairs": ps, "mode": map[bool]string{true: "parallel goroutines under -race", false: "tape-driven interleaving of API calls"}[r.o.Race]}
 	}
+}
+
+// coopEvt is what a stream goroutine reports to the scheduler: it parked at a
+// yield point inside an API call (site != ""), or it finished the call.
+type coopEvt struct {
+	k    int
+	site string
+}
+
+// coopInterleave runs the streams under the cooperative scheduler; false
+// means infrastructure trouble (r.out.Infra is set).
+func (r *run) coopInterleave(states []*pairState) bool {
+	t := r.tape
+	n := len(states)
+	cmd := make([]chan string, n)
+	resume := make([]chan struct{}, n)
+	events := make(chan coopEvt)
+	var gmu sync.Mutex
+	goids := map[uint64]int{}
+	for k := range states {
+		cmd[k] = make(chan string)
+		resume[k] = make(chan struct{})
+	}
+	runtime.SetVerifYield(func(site string) {
+		gmu.Lock()
+		k, ok := goids[runtime.VerifGoid()]
+		gmu.Unlock()
+		if !ok {
+			return // not a stream goroutine (e.g. the solo runs on the scheduler's goroutine)
+		}
+		events <- coopEvt{k, site}
+		<-resume[k]
+	})
+	defer runtime.SetVerifYield(nil)
+	var wg sync.WaitGroup
+	for k := range states {
+		wg.Add(1)
+		go func(k int, ps *pairState) {
+			defer wg.Done()
+			gmu.Lock()
+			goids[runtime.VerifGoid()] = k
+			gmu.Unlock()
+			events <- coopEvt{k, ""} // registered
+			for op := range cmd[k] {
+				switch op {
+				case "create":
+					ps.create()
+				case "encode":
+					ps.encodeNext()
+				case "decode":
+					ps.decodeNext()
+				case "close":
+					ps.close()
+				}
+				events <- coopEvt{k, ""}
+			}
+		}(k, states[k])
+	}
+	stop := func() {
+		for k := range cmd {
+			close(cmd[k])
+		}
+	}
+	wait := func() (coopEvt, bool) {
+		select {
+		case ev := <-events:
+			return ev, true
+		case <-time.After(120 * time.Second):
+			r.out.Infra = "C16 scheduler: the running stream goroutine neither reached a yield point nor finished its call within 120 s (blocked on something the simulator does not control)"
+			return coopEvt{}, false
+		}
+	}
+	for range states {
+		if _, ok := wait(); !ok {
+			return false
+		}
+	}
+	created := make([]bool, n)
+	midOp := make([]string, n) // site at which the stream is parked inside a call, "" if between calls
+	midKind := make([]string, n)
+	inner := 0
+	for {
+		type op struct {
+			k    int
+			kind string
+		}
+		var ops []op
+		for k, ps := range states {
+			switch {
+			case midOp[k] != "":
+				ops = append(ops, op{k, "resume"})
+			case !created[k]:
+				ops = append(ops, op{k, "create"})
+			case ps.closed:
+			default:
+				if len(ps.encoded) < len(ps.plan.batches) {
+					ops = append(ops, op{k, "encode"})
+				}
+				if ps.nDecoded < len(ps.encoded) {
+					ops = append(ops, op{k, "decode"})
+				}
+				if len(ps.encoded) == len(ps.plan.batches) && ps.nDecoded == len(ps.encoded) {
+					ops = append(ops, op{k, "close"})
+				}
+			}
+		}
+		if len(ops) == 0 {
+			break
+		}
+		o := ops[t.Draw(core.Sched, len(ops))]
+		r.batch++
+		if o.kind == "resume" {
+			r.logf("step %d: pair %d continues its %s from %s", r.batch, o.k, midKind[o.k], midOp[o.k])
+			r.sig.Int(int64(o.k)).Str("resume")
+			resume[o.k] <- struct{}{}
+		} else {
+			r.logf("step %d: pair %d %s", r.batch, o.k, o.kind)
+			r.sig.Int(int64(o.k)).Str(o.kind)
+			midKind[o.k] = o.kind
+			cmd[o.k] <- o.kind
+		}
+		ev, ok := wait()
+		if !ok {
+			return false
+		}
+		if ev.k != o.k {
+			r.out.Infra = fmt.Sprintf("C16 scheduler: pair %d reported while pair %d was running", ev.k, o.k)
+			return false
+		}
+		midOp[o.k] = ev.site
+		if ev.site != "" {
+			inner++
+			r.sig.Str(ev.site)
+			if inner > 200000 {
+				r.out.Infra = "C16 scheduler: more than 200,000 yield points in one run"
+				return false
+			}
+		} else if midKind[o.k] == "create" {
+			created[o.k] = true
+		}
+	}
+	stop()
+	wg.Wait()
+	if inner > 0 {
+		r.out.Probes["yield_points_inside_api_calls"] += inner
+	}
+	return true
 }
 
 func (e *Engine) newRaceReport() string {
